@@ -271,6 +271,11 @@ func (m *ScaledNumberType) GetValue() float64 {
 	if m.Scale != nil {
 		scale = float64(*m.Scale)
 	}
+	// negative powers of ten are not exact in binary floating point,
+	// so let the decimal parser find the nearest value
+	if value, err := strconv.ParseFloat(fmt.Sprintf("%de%d", *m.Number, int(scale)), 64); err == nil {
+		return value
+	}
 	return float64(*m.Number) * math.Pow(10, scale)
 }
 
@@ -289,7 +294,14 @@ func NewScaledNumberType(value float64) *ScaledNumberType {
 		numberOfDecimals = 4
 	}
 
-	numberValue := NumberType(math.Trunc(value * math.Pow(10, float64(numberOfDecimals))))
+	// round the decimal representation, as the binary product is not exact
+	// (e.g. 0.29 * 100 = 28.999999999999996)
+	rounded := strconv.FormatFloat(value, 'f', numberOfDecimals, 64)
+	number, err := strconv.ParseInt(strings.Replace(rounded, ".", "", 1), 10, 64)
+	if err != nil {
+		number = int64(math.Round(value * math.Pow(10, float64(numberOfDecimals))))
+	}
+	numberValue := NumberType(number)
 	m.Number = &numberValue
 
 	var scaleValue ScaleType
